@@ -190,6 +190,24 @@ def check_model(rep, drv, gen, rng, m, text, c, with_jax, with_c):
                     rep.count("c_models")
             finally:
                 cm.close()
+    # ---- the same identity for the code generated with remove_unused (the step must write each state's own slot whatever is removed)
+    if failing is None:
+        code_ru = family.try_generate(rep, c, text, schemes=["explicit_euler"], remove_unused=True)
+        if not isinstance(code_ru, Exception):
+            ns_ru, fns_ru = impl.exec_module(code_ru), impl.export_functions(code_ru)
+            for pt in gen.inputs(m, 1):
+                isx, st, ps = pipeline.inputs_sx(lay, pt)
+                with np.errstate(all="ignore"):
+                    try:
+                        f0 = np.array(impl.call_numpy(ns["rhs"], fns["rhs"]["args"], pt["t"], st, ps), dtype=float)
+                        for dt in (0.0, 0.125):
+                            e = np.array(impl.call_numpy(ns_ru["explicit_euler"], fns_ru["explicit_euler"]["args"], pt["t"], st, ps, dt=dt), dtype=float)
+                            want = np.array(st) + dt * f0
+                            if np.all(np.isfinite(f0)) and not family.eq_arrays(e, want):
+                                fail(f"explicit_euler generated with remove_unused (dt={dt}) = {e.tolist()} but states + dt*rhs = {want.tolist()}", pt, dt=dt, remove_unused=True)
+                    except Exception as ex:  # noqa: BLE001
+                        fail(f"explicit_euler generated with remove_unused raises {type(ex).__name__}: {str(ex)[:100]}", pt, remove_unused=True)
+            rep.count("euler_with_remove_unused_compared")
     family.settle(rep, issue, failing, structural)
 
 
@@ -206,6 +224,15 @@ def main(argv=None):
     rng = random.Random(a.seed)
     gen = lang.Gen(rng, max_depth=3)
     n = a.n or (40 if a.tier == "quick" else 800)
+    # ---- directed: unread intermediates whose removal would re-order the derivatives if the statements were sorted again without them
+    import textmodel
+    for text in ("parameters(a=1.0, b=2.0, c=3.0)\nstates(u=1.0, v=2.0, w=3.0)\nprobe = b\ndu_dt = w\ndv_dt = u\ndw_dt = b\n",
+                 "states(x=1, y=2)\nparameters(k=0.5, g=2)\ny_percent = 100*y\ndx_dt = -k*x + g\ndy_dt = k - y\n",
+                 "states(x=1, y=2, z=3)\nparameters(p=1, q=2)\nmon1 = z*q\nmon2 = mon1 + y\ndx_dt = y\ndy_dt = z - p\ndz_dt = q - x\n"):
+        c_ = pipeline.Case(drv, text)
+        m_ = textmodel.model_from_items(c_.captured)
+        core.guarded(rep, text, check_model, rep, drv, gen, rng, m_, text, c_, with_jax=False, with_c=False)
+        rep.case(key=text, nontrivial=True)
     # ---- directed: a state that no expression reads and whose name the step function uses for itself (the step assigns
     # every state, read or not): the text is either refused or stepped like any other model, with and without remove_unused
     for name in ("dt", "t", "time", "states", "parameters", "values", "acc"):
